@@ -3,7 +3,7 @@
 From Coq Require Import NArith ZArith List Bool.
 Import ListNotations.
 Require Import UV.Gen.Consts UV.Mcount.Model UV.Mcount.Forest UV.Mcount.PlainStep UV.Mcount.PlainProofs
-  UV.Mcount.Restore UV.Mcount.SelectSpec UV.Mcount.Select UV.Mcount.Embed UV.Mcount.EmbedOver UV.Mcount.EmbedMore UV.Mcount.Check UV.Mcount.SelectSpec2 UV.Mcount.Select2.
+  UV.Mcount.Restore UV.Mcount.SelectSpec UV.Mcount.Select UV.Mcount.Embed UV.Mcount.EmbedOver UV.Mcount.EmbedMore UV.Mcount.Check UV.Mcount.SelectSpec2 UV.Mcount.Select2 UV.Mcount.Method.
 Local Open Scope N_scope.
 
 (* The filter state after a function returns equals the state before it was called - for EVERY
@@ -131,6 +131,34 @@ Theorem C05_method_independent_filters_triggers : forall tg szf fm hc gd thr ms 
   out (fst (exec (fcfg2 tg szf fm hc gd thr ms CYG) (flat_forest f) (init, []))).
 Proof. exact method_independent_sel2. Qed.
 Print Assumptions C05_method_independent_filters_triggers.
+
+(* Method independence for EVERY configuration: any trigger table (filter, notrace, depth=N also 0, time=, size=, trace,
+   trace_on, trace_off, caller, in any combination), any -D / -t / -C / -Z, any call forest that fits into --max-stack,
+   no well-formedness hypothesis: the -pg / fentry shape and the -finstrument-functions shape write the same records
+   (proved directly, by a simulation between the two runs over call trees; Mcount/Method.v) ... *)
+Theorem C05_method_independent_every_configuration : forall c z f, heights f <= max_stack c ->
+  out (fst (exec (pg_of c) (flat_forest f) (init_z z, []))) =
+  out (fst (exec (cyg_of c) (flat_forest f) (init_z z, []))).
+Proof. exact method_independent_all. Qed.
+Print Assumptions C05_method_independent_every_configuration.
+
+(* ... and end in the same filter state, trace switch and record index *)
+Theorem C05_method_independent_final_state : forall c z f, heights f <= max_stack c ->
+  let sp := fst (exec (pg_of c) (flat_forest f) (init_z z, [])) in
+  let sc := fst (exec (cyg_of c) (flat_forest f) (init_z z, [])) in
+  fc sp = fc sc /\ enabled sp = enabled sc /\ ridx sp = ridx sc.
+Proof. exact method_independent_state. Qed.
+Print Assumptions C05_method_independent_final_state.
+
+(* non-vacuity: an opt-in filter function with depth=2 and trace, trace_off / trace_on switches, a notrace function
+   with a time= trigger: six records, the same under both shapes *)
+Theorem C05_method_independent_example :
+  heights mi_forest <= max_stack mi_cfg /\
+  length (out (fst (exec (pg_of mi_cfg) (flat_forest mi_forest) (init, [])))) = 6%nat /\
+  out (fst (exec (pg_of mi_cfg) (flat_forest mi_forest) (init, []))) =
+  out (fst (exec (cyg_of mi_cfg) (flat_forest mi_forest) (init, []))).
+Proof. exact mi_example. Qed.
+Print Assumptions C05_method_independent_example.
 
 (* ... and for call forests of any depth, also beyond --max-stack *)
 Theorem C05_nested_any_configuration_any_depth : forall c, no_switch c -> forall f, all_ended f ->
